@@ -69,5 +69,10 @@ func init() {
 	register("C16", "", ruleResolverSpec, ruleIntrospectionSources, r7(scope{"resolver", []string{"introspection.(*IntrospectionResolver).ResolveIntrospectionFields"}}), ruleMapRanges(scope{"resolver", []string{"introspection.(*IntrospectionResolver).ResolveIntrospectionFields"}}, 2))
 	register("C19", "", ruleVariableWrites, ruleEncodings("upload"), ruleUploadParts, ruleMapRanges(scUpload, 3))
 	register("C01", "", ruleEncodings("insertion"))
+	register("C14", "", ruleKeyReadSet)
+	register("C02", "", ruleVariableTraversals)
+	register("C02", "", ruleASTWrites)
+	register("C14", "", ruleASTWrites)
+	register("C01", "", ruleASTWrites)
 	register("X6", "debug: R6 over whole module", ruleErr(errScope{label: "all", pkgs: []string{"pebbles", "common", "executor", "format", "gqlerrors", "introspection", "merger", "planner", "queryer", "requests"}}))
 }
